@@ -494,13 +494,19 @@ func (g *G) generate(o roundOpts, rn int64, gen int) *cand {
 
 	// the block as it was handed to the network
 	c := &cand{gen: gen, b: b}
-	g.mu.Lock()
-	for _, e := range g.sent {
-		if sb, ok := e.(*block.Block); ok && sb.Hash == b.Hash {
-			c.sentB = sb
+	for try := 0; try < 3000; try++ {
+		g.mu.Lock()
+		for _, e := range g.sent {
+			if sb, ok := e.(*block.Block); ok && sb.Hash == b.Hash {
+				c.sentB = sb
+			}
 		}
+		g.mu.Unlock()
+		if c.sentB != nil || w.InBubble {
+			break
+		}
+		time.Sleep(time.Millisecond) // outside a bubble (race workload) the send goroutine runs on its own
 	}
-	g.mu.Unlock()
 	if c.sentB == nil {
 		g.violate("generator", "block-not-sent", fmt.Sprintf("round %d: GenerateRoundBlock returned block %s but did not hand it to VerifyBlockSender", rn, b.Hash))
 		return nil
